@@ -120,7 +120,8 @@ partial def pStmt (ts : Toks) : Option (Sk × Toks) :=
   | [] => none
   | t :: r =>
     match t.splitOn ":" with
-    | ["a0"] => some (.a0, r) | ["a1"] => some (.a1, r) | ["o"] => some (.o, r)
+    | ["a0"] => some (.a0, r) | ["a1"] => some (.a1, r) | ["o"] => some (.o 0, r)
+    | ["o", f] => do some (.o (← f.toNat?), r)
     | ["br"] => some (.br, r) | ["co"] => some (.co, r) | ["ret"] => some (.ret, r) | ["rs"] => some (.rs, r)
     | ["u", f] => do some (.u (← f.toNat?), r)
     | ["if", f] => do
